@@ -384,6 +384,11 @@ class VGen(Gen):
 
     def gen_union(self, depth: int, hashable: bool = False) -> dict:
         n = self.rng.choice([1, 2, 2, 3, 4])
+        if self.chance(0.12):
+            # wide unions (the typed constructor is overloaded up to 8 variants): leaves only, to keep cases small
+            n = self.rng.choice([5, 6, 7, 8, 8])
+            return {"k": "union", "vid": self.vid(), "vs": [self.gen_v(0, hashable=hashable) for _ in range(n)],
+                    "untyped": self.chance(0.3)}
         return {"k": "union", "vid": self.vid(), "vs": [self.gen_v(depth, hashable=hashable) for _ in range(n)],
                 "untyped": self.chance(0.5)}
 
